@@ -17,6 +17,7 @@ Warned runs are only counted there; the fraction of silent returns is labelled (
 """
 from __future__ import annotations
 
+import json
 import math
 
 import torch
@@ -86,6 +87,7 @@ TECHNIQUE = "Hypothesis property-based testing: postcondition oracle on the retu
 WALL = {"quick": 300, "thorough": 1500}
 
 RF = ["newton", "broyden1", "broyden2", "linearmixing"]
+NEWTON_SOLVERS = ["exactsolve", "custom_exactsolve", "cg", "bicgstab", "gmres"]
 METHODS = {"rootfinder": RF, "equilibrium": RF + ["anderson_acc"], "minimize": RF + ["gd", "adam"]}
 EPS = {"f32": 1.2e-7, "f64": 2.3e-16, "c128": 2.3e-16}
 
@@ -180,7 +182,7 @@ def in_class(prob, case, method, opts, N, res0):
     if method in ("gd", "adam"):
         # gd with gamma=0, step <= 1/lmax contracts by 1 - step*sigma >= ... per iteration: 5000 iterations reach any x_tol used here
         return bool(opts.get("_class")) and opts.get("maxiter", 0) >= 5000
-    for k in ("maxiter", "f_rtol", "x_rtol", "alpha", "max_rank", "msize", "beta", "lmbda"):
+    for k in ("maxiter", "f_rtol", "x_rtol", "alpha", "max_rank", "msize", "beta", "lmbda", "solver_method", "solver_kwargs"):
         if opts.get(k) is not None:
             return False
     if opts.get("line_search") is False:
@@ -335,6 +337,9 @@ def run_single(case):
     y0 = make_y0(case, prob, ystar, g)
     api, method, opts = case["api"], case["method"], case["opts"]
     labels = base_labels(case, prob) + ["method=" + method, "api_method=%s/%s" % (api, method)]
+    if opts.get("solver_method") is not None:
+        labels.append("newton_solver=%s/%s/%s" % (opts["solver_method"], json.dumps(opts.get("solver_kwargs"), sort_keys=True),
+                                                  "starved" if opts.get("maxiter") in (1, 2, 3, 5) else "budget"))
     for k in ("maxiter", "line_search", "alpha", "max_rank", "x_tol", "f_rtol", "x_rtol", "msize", "beta", "gamma"):
         if opts.get(k) is not None and not (method == "gd" and k in ("x_tol", "f_rtol", "x_rtol")):
             labels.append("opt:%s=%s" % (k, opts[k]))
@@ -548,6 +553,12 @@ def opts_st(draw, case, method, gd_modes=("default", "stable", "stable", "class"
         opts["line_search"] = draw(st.sampled_from([None, True] if plain else [None, True, False, False]))
         if method != "newton" and not plain:
             opts["alpha"] = draw(st.sampled_from([None, None, -1.0, -0.5, 1.0]))
+        if method == "newton" and not plain and draw(st.booleans()):
+            # documented options of newton: the linear solver of the Newton step and its options (an iterative inner solver that stops
+            # early only makes the step inexact: the outer stopping test, and the warning when it is not reached, are unchanged)
+            opts["solver_method"] = draw(st.sampled_from(NEWTON_SOLVERS))
+            if opts["solver_method"] in ("cg", "bicgstab", "gmres"):
+                opts["solver_kwargs"] = draw(st.sampled_from([None, {}, {"rtol": 1e-8}, {"rtol": 1e-2}, {"max_niter": 1}, {"max_niter": 2}]))
         if method in ("broyden1", "broyden2") and not plain:
             opts["max_rank"] = draw(st.sampled_from([None, None, 1, 2, 5]))
     if method == "anderson_acc":
